@@ -122,7 +122,7 @@ def install(eng):
             "_cached_schedule": FnRef("gwf.scheduling:schedule._cached_schedule")}
     MODS = ["cache", "Graph.dependencies"] + GHOSTS
     EXC = {"Exception": {"cond": "True", "ensures": STATIC + LOGINV}}
-    USES = ["spec", "rank", "cone", "tree", "fs"]
+    USES = ["spec", "rank", "cone", "fs"]
     HINTS = ["forall(lambda u: deps0(u) == NoTargets and Ins(u) == NoPaths and Outs(u) == NoPaths, Target)",
              "dom(log_pos) == NoTargets", "log_n == 0", "dom(graph.dependencies) == NoTargets"]
     HINTS_C = HINTS + ["dom(cache) == NoTargets"]
@@ -177,3 +177,8 @@ def install(eng):
         ] + LOGINV,                                                           # exact prerequisites, order, once
         loops={1: Loop(seen="se", inv=INV + ["all(e in cache for e in se)"])},
         raises=EXC, uses=USES, cover_hints=HINTS, serves=["C02", "C05", "C09"])
+
+    from replay import enum_schedule
+    for k in ("gwf.scheduling:schedule", "gwf.scheduling:schedule._schedule",
+              "gwf.scheduling:schedule._cached_schedule"):
+        eng.replayers[k] = enum_schedule.replay
